@@ -211,6 +211,9 @@ def _solve_structure(E, s):
             b = _tt(E, N, s['Rb'])
             if s.get('guess'):
                 kw['x0'] = _tt(E, N, s['guess'])
+                if E.mode == 'real' and s.get('seed', 0) % 2 == 1:
+                    # replay variant: the guess already solves the system (the path on which the first residual test succeeds)
+                    kw['x0'] = tt.solvers.amen_solve(A, b, verbose=False, eps=1e-12)
             if s.get('guess_is') == 'operand':
                 kw['x0'] = b              # x0 = b (as in the repository's examples)
             sn = _snap(E, [A, b, kw.get('x0')])
